@@ -507,7 +507,7 @@ def parse_assumptions_multiline(out):
 
 # ----------------------------------------------------------------------------- run
 def run(ctx):
-    vlib.parse_assumptions = parse_assumptions_multiline
+    # (vlib.parse_assumptions handles multi-line axiom types itself now)
     import time as _t; _t0 = _t.time()
     def lap(what):
         if os.environ.get('C20_TIMING'):
